@@ -109,6 +109,8 @@ where
             let raw = S::values_to_bytes(&taken);
             let append_at = page.end() as usize;
             self.region().truncate_write(append_at, &raw)?;
+            #[cfg(feature = "verif")]
+            crate::verif::point("cwrite:fast:after_region_write");
 
             let mut pages = self.pages.write();
             pages.truncate(starting_page_index);
@@ -120,7 +122,11 @@ where
                     (partial_len + pushed_len) as u32,
                 ),
             )?;
+            #[cfg(feature = "verif")]
+            crate::verif::point("cwrite:fast:pages_updated");
             self.base.update_stored_len(stored_len + pushed_len);
+            #[cfg(feature = "verif")]
+            crate::verif::point("cwrite:fast:len_published");
             pages.flush()?;
             return Ok(true);
         }
@@ -161,7 +167,11 @@ where
         }
 
         // Write the region before re-taking the pages lock to avoid deadlock.
+        #[cfg(feature = "verif")]
+        crate::verif::point("cwrite:slow:before_region_write");
         self.region().truncate_write(truncate_at as usize, &buf)?;
+        #[cfg(feature = "verif")]
+        crate::verif::point("cwrite:slow:after_region_write");
 
         let mut pages = self.pages.write();
         pages.truncate(starting_page_index);
@@ -176,7 +186,11 @@ where
             pages.checked_push(starting_page_index + i, page)?;
         }
 
+        #[cfg(feature = "verif")]
+        crate::verif::point("cwrite:slow:pages_updated");
         self.base.update_stored_len(stored_len + pushed_len);
+        #[cfg(feature = "verif")]
+        crate::verif::point("cwrite:slow:len_published");
         pages.flush()?;
 
         Ok(true)
